@@ -32,6 +32,8 @@ FIXED = [
     ("C17", "F46", "the loky backend is re-created after an abort with the settings of its Parallel object", "with Parallel(n_jobs=2, backend='loky', max_nbytes=10, temp_folder=X, mmap_mode='c') as p: after a call in which a task raised, LokyBackend.abort_everything reconfigured the executor without Parallel._backend_kwargs: the following calls on p ran with the default max_nbytes / temp folder / mmap_mode / context"),
     ("C17", "F47", "a loky executor created for another temp_folder is not reused", "Parallel(n_jobs=2, temp_folder=X) after an earlier loky call with otherwise equal settings reused the running executor, whose temporary-folder manager keeps the folder it was created with: arrays were memmapped under the earlier call's folder (/dev/shm) instead of X, although Parallel._backend_kwargs['temp_folder'] showed X"),
     ("C16", "F48", "an input failure met by a completion callback after the call was aborted is dropped", "output generator closed (or a task failed) while a completion callback was inside a slow input iterator, on a backend that cannot join its callback threads at abort: the iterator then raised, dispatch_one_batch registered the error tracker in the job queue of the finished call, and the NEXT call on the same Parallel object raised that stale error (ordered modes)"),
+    ("C12", "F51", "MemorizedFunc.call checks the recorded source before storing the forced result", "forced execution MemorizedFunc.call(a) stored its value without comparing or recording the function's source: (a) call() in a fresh cache directory left an entry without func_code.py, after an edit of the function a new process's check_call_in_cache wrote the NEW source and its ordinary call then returned the OLD value; (b) call() of edited code stored the new value under the old source record, a process with the old text then returned the new value"),
+    ("C19", "F52", "mmap_mode=None disables the automatic memmapping of large arguments", "Parallel(n_jobs=2, max_nbytes=10, mmap_mode=None) with an array above max_nbytes: the array was still dumped to a temp file and the worker failed in load_temporary_memmap (ndarray has no attribute filename): BrokenProcessPool on loky, a hang on multiprocessing; None is documented as 'disable memmapping'"),
     ("C14", "F50", "format_signature takes the function positionally only", "a cached function with a parameter named 'func', called with it by keyword, on a damaged output.pkl: the recovery path of MemorizedFunc._cached_call called format_signature(self.func, *args, **kwargs), whose own first parameter is named func: TypeError('got multiple values for argument func') instead of a warning and a recomputation"),
     ("C19", "F28", "a contiguous view of a memmap is re-mapped in the workers with the memory order of the view", "transposed / F-ordered contiguous memmap views presented wrong values to process workers"),
 ]
